@@ -42,9 +42,14 @@ var c07Shapes = []string{
 	"2024-01-17=2024-01-18 ! pay\n  (v:x)  -1 \"a b\"\n  [w:y]  2.5 USD == 3 USD ; n:\n  z:q\n",
 	// 6 (c07NbTx): a shorter transaction, only used as a neighbour in the quick tier
 	"2024-01-15 * (c1) shop ; k: v\n  a:food  $1.50\n  a:cash  = $9\n",
+	// 7 (c07NbTx2): a still shorter one
+	"2024-01-16 pay\n  a:b  1 USD\n  c:d\n",
 }
 
-const c07NbTx = 6
+const (
+	c07NbTx  = 6
+	c07NbTx2 = 7
+)
 
 // ---------- rendering of extracted entries with shifted positions ----------
 
@@ -332,7 +337,7 @@ func c07Of(idx int, shapes ...int) c07J {
 	j := c07J{idx: idx}
 	for _, k := range shapes {
 		j.ent = append(j.ent, c07Shapes[k])
-		j.endsAtNext = append(j.endsAtNext, k == 0 || k == 1 || k == 2 || k == 5 || k == c07NbTx)
+		j.endsAtNext = append(j.endsAtNext, k == 0 || k == 1 || k == 2 || k == 5 || k == c07NbTx || k == c07NbTx2)
 	}
 	return j
 }
@@ -451,9 +456,8 @@ func VerifC07Bytes() { // one arbitrary byte overwritten / inserted, one special
 	verifC07(c07Light(5), c07ByteDamages[zzverif.Choice("dmg", 3)], 1)
 }
 
-func VerifC07Bytes2() { // two arbitrary bytes overwritten / inserted at every offset of a P directive and of an account directive
-	j := c07Of(1, c07NbTx, []int{3, 1}[zzverif.Choice("e.kind", 2)], 1)
-	verifC07(j, c07ByteDamages[zzverif.Choice("dmg", 2)], 2)
+func VerifC07Bytes2() { // two arbitrary bytes overwritten / inserted at every offset of a P directive (commodity directive before, transaction after)
+	verifC07(c07Of(1, 2, 3, c07NbTx2), c07ByteDamages[zzverif.Choice("dmg", 2)], 2)
 }
 
 func VerifC07Lines() { // truncation at every offset, deleted / duplicated / exchanged lines
@@ -465,19 +469,15 @@ func VerifC07Deep() { // as Bytes, all six shapes, full-size neighbours
 	verifC07(c07Rich(6), c07ByteDamages[zzverif.Choice("dmg", 3)], 1)
 }
 
-func VerifC07Deep2() { // two arbitrary bytes, every shape, between a transaction and an account directive and as last entry
-	e := zzverif.Choice("e.kind", 6)
-	j := c07Of(1, c07NbTx, e, 1)
-	if zzverif.Choice("ctx", 2) == 1 {
-		j = c07Of(1, 2, e)
-	}
-	verifC07(j, c07ByteDamages[zzverif.Choice("dmg", 2)], 2)
+func VerifC07Deep2() { // two arbitrary bytes, every shape, between a transaction and an account directive
+	verifC07(c07Of(1, c07NbTx, zzverif.Choice("e.kind", 6), 1), c07ByteDamages[zzverif.Choice("dmg", 2)], 2)
 }
 
 func VerifC07LinesDeep() { // line damages with every shape at every place
 	verifC07(c07Full(6), c07LineDamages[zzverif.Choice("dmg", 4)], 0)
 }
 
-func VerifC07SpecialDeep() { // one special character inserted at every offset, every shape at every place
-	verifC07(c07Full(6), c07Special, 1)
+func VerifC07SpecialDeep() { // one special character inserted at every offset, every shape between every pair of neighbours
+	k0, e, k2 := zzverif.Choice("k0", 6), zzverif.Choice("e.kind", 6), zzverif.Choice("k2", 6)
+	verifC07(c07Of(1, k0, e, k2), c07Special, 1)
 }
